@@ -68,7 +68,10 @@ impl<T> Combine for ListBuilder<T> {
 
 type DiagsBuilder = ListBuilder<Diag>;
 
-pub trait Pass: VisitProgram<Output = DiagsBuilder, Error = ()> {}
+pub trait Pass: VisitProgram<Output = DiagsBuilder, Error = ()> {
+    /// Forget whatever the pass remembers from a previously linted program.
+    fn reset(&mut self) {}
+}
 
 pub type Passes = Vec<Box<dyn Pass>>;
 
@@ -89,6 +92,7 @@ fn postprocess(mut diags: Vec<Diag>) -> LinterResult {
 
 impl Linter {
     pub fn run(&mut self, program: &Program) -> LinterResult {
+        self.passes.iter_mut().for_each(|p| p.reset());
         postprocess(
             combine_all(self.passes.iter_mut().map(|p| p.visit_program(&program)))
                 .unwrap_or_default()
